@@ -260,7 +260,7 @@ def run(ctx):
         else:
             core = [hw[0], hw[3], hw[10], hw[16]]       # every shard: sets in which the loud outcome certainly occurs
             hw_sel = core + [h for i, h in enumerate(hw) if i % ctx.nshards == ctx.shard and h not in core]
-            nrand, stmt = 26, 8
+            nrand, stmt = 16, 6
         for sessions in hw_sel:
             explore(ctx, model, sp, sessions, 'hand', ('hand', hw.index(sessions), ctx.shard), stmt)
             ctx.count('program_sets')
